@@ -426,6 +426,13 @@ func CheckMain(propID, tier string, exe, raceExe, verifDir string) int {
 		}
 		scs = f
 	}
+	if d := os.Getenv("VERIF_SAVE_SCEN"); d != "" { // debugging aid: replayable files for every generated scenario
+		os.MkdirAll(d, 0o755)
+		for _, s := range scs {
+			b, _ := json.MarshalIndent(map[string]any{"property": p.ID, "tier": tier, "seed": seed, "scenario": s}, "", " ")
+			os.WriteFile(filepath.Join(d, s.ID+".json"), b, 0o644)
+		}
+	}
 	// jobs
 	batch := p.Batch
 	if batch == 0 {
